@@ -13,4 +13,4 @@ Separate Extraction
   Engine.run Engine.dump Engine.engine0 Engine.normal_for
   PyFile.pf_read PyFile.pf_seek PyFile.pf_write PyFile.pf_tell
   Window.win_run
-  FileIface.pyfile_ops WindowProofs.window_ops CtrIO.ctr_run CbcIO.cbc_run Exefs.exefs_parse Tmd.tmd_load TmdSer.tmd_reserialise TmdSer.obj_of TmdSer.ser_obj Ncch.exefs_ranges NcchFull.fulldec_read NcchFull.image Romfs.walk_bounded Romfs.lookup RomfsPath.lookup_path Ncsd.ncsd_partitions Sd.sd_key_of Sd.id0_of Ivfc.run_blocks Ivfc.cempty Ivfc.dpfs_active_bit IvfcWrite.write_level Dpfs.dpfs_read Dpfs.spec_lv3 Dpfs.lv1_words Dpfs.lv2_words DpfsWrite.lv3_write IvfcRead.lv4_read IvfcBound.read_blocks PosReader.pr_ops PosReader.rof_fetch CfgSave.cfg_bytes CfgSave.cfg_load AppTitle.title_parse AppTitle.title_bytes Close.run Close.s0 Nand.nand_parse Nand.nand_bytes Nand.infer_ctr Nand.infer_twl Lzss.decompress Sched.run Sched.guarded Sched.init_cfg Merger.m_run Codecs.seeddb_load Codecs.seeddb_save Codecs.ivfc_from_bytes Codecs.ivfc_to_bytes Codecs.dpfs_from_bytes Codecs.dpfs_to_bytes StreamCipher.stream_dec StreamCipher.cbc_dec.
+  FileIface.pyfile_ops WindowProofs.window_ops CtrIO.ctr_run CbcIO.cbc_run Exefs.exefs_parse Tmd.tmd_load TmdSer.tmd_reserialise TmdSer.obj_of TmdSer.ser_obj Ncch.exefs_ranges NcchFull.fulldec_read NcchFull.fulldec_read_avail NcchFull.fulldec_units NcchFull.image Romfs.walk_bounded Romfs.lookup RomfsPath.lookup_path Ncsd.ncsd_partitions Sd.sd_key_of Sd.id0_of Ivfc.run_blocks Ivfc.cempty Ivfc.dpfs_active_bit IvfcWrite.write_level Dpfs.dpfs_read Dpfs.spec_lv3 Dpfs.lv1_words Dpfs.lv2_words DpfsWrite.lv3_write IvfcRead.lv4_read IvfcBound.read_blocks PosReader.pr_ops PosReader.rof_fetch CfgSave.cfg_bytes CfgSave.cfg_load AppTitle.title_parse AppTitle.title_bytes Close.run Close.s0 Nand.nand_parse Nand.nand_bytes Nand.infer_ctr Nand.infer_twl Lzss.decompress Sched.run Sched.guarded Sched.init_cfg Merger.m_run Codecs.seeddb_load Codecs.seeddb_save Codecs.ivfc_from_bytes Codecs.ivfc_to_bytes Codecs.dpfs_from_bytes Codecs.dpfs_to_bytes StreamCipher.stream_dec StreamCipher.cbc_dec.
